@@ -582,6 +582,35 @@ impl Obj for MmapMetaObj {
     }
 }
 
+/// payload WITH a destructor that scribbles a marker over its own storage (what engine M's model of `drop_in_place` does):
+/// a payload destroyed while / after its slot was handed to somebody else shows up as the marker where an event was expected
+#[derive(Debug, Default)]
+struct Tracked(u32);
+impl Drop for Tracked { fn drop(&mut self) { unsafe { std::ptr::write_volatile(&mut self.0, 0xDEADD00D) } } }
+type AllocTA<const N: usize> = OgreArrayPoolAllocator<Tracked, AtomicMove<u32, N>, N>;
+type AllocTF<const N: usize> = OgreArrayPoolAllocator<Tracked, FullSyncMove<u32, N>, N>;
+macro_rules! zc_drop_obj {
+    ($name:ident, $ty:ident, $alloc:ident) => {
+        struct $name<const N: usize>($ty<Tracked, $alloc<N>, N>);
+        unsafe impl<const N: usize> Send for $name<N> {}
+        unsafe impl<const N: usize> Sync for $name<N> {}
+        impl<const N: usize> Obj for $name<N> {
+            fn op(&self, name: &str, arg: u64, _prev: &[u64]) -> (u64, String) {
+                match name {
+                    "send" => { let (a, back) = self.0.publish_movable(Tracked(arg as u32)); if let Some(b) = back { std::mem::forget(b); } let ok = a.is_some(); (ok as u64, format!("ok {}", ok)) }
+                    "recv" | "drain" => match self.0.consume_leaking() {
+                        Some((r, id)) => { let v = unsafe { std::ptr::read_volatile(&r.0) }; self.0.release_leaked_id(id); show_opt(Some(v)) }
+                        None => show_opt(None),
+                    },
+                    _ => panic!("unknown op {}", name),
+                }
+            }
+        }
+    };
+}
+zc_drop_obj!(AtomicZcDrop, AtomicZeroCopy, AllocTA);
+zc_drop_obj!(FullSyncZcDrop, FullSyncZeroCopy, AllocTF);
+
 fn make(kind: &str, n: usize) -> Arc<dyn Obj> {
     if kind.starts_with("MmapMeta") { return Arc::new(MmapMetaObj::new(n)); }
     if kind.starts_with("Multi") { return make_multi(kind, n).unwrap_or_else(|| panic!("unknown object kind {}", kind)); }
@@ -591,6 +620,8 @@ fn make(kind: &str, n: usize) -> Arc<dyn Obj> {
         "AtomicMove" => pick!(AtomicRing, MoveContainer::new()),
         "FullSyncMove" => pick!(FullSyncRing, MoveContainer::new()),
         "AtomicZeroCopy" => pick!(AtomicZc, MetaContainer::new()),
+        "AtomicZeroCopyDrop" => pick!(AtomicZcDrop, MetaContainer::new()),
+        "FullSyncZeroCopyDrop" => pick!(FullSyncZcDrop, MetaContainer::new()),
         "FullSyncZeroCopy" => pick!(FullSyncZc, MetaContainer::new()),
         "PoolAtomic" => pick!(PoolA, BoundedOgreAllocator::new()),
         "PoolFullSync" => pick!(PoolF, BoundedOgreAllocator::new()),
